@@ -16,7 +16,7 @@ EXPLANATION = ('(1) R-NULL check-then-use on every function of property.cpp (a p
                'occupied item then clears, next stops at items+capacity). Payload obligations per table: del/cluster-move '
                'empties the old slot and writes every field of the item struct in the new slot; set/add writes every field. '
                '(3) Array<T>: grow-before-shift in insert, exactly one count decrement in remove/remove_unordered, copy_from '
-               'allocates count items. (4) property-list copies append at the tail and deep-copy, and remove_property leaves the function right after the first removal unless all occurrences were requested. Decides these structural '
+               'allocates count items. (4) property-list copies append at the tail and deep-copy, remove_property leaves the function right after the first removal unless all occurrences were requested, and set_gds_property / get_or_add_property either update an existing entry or link a new one, never both (CFG reachability). Decides these structural '
                'necessary conditions; does not decide equivalence with an abstract map over operation histories, nor sort.')
 ASSUMPTIONS = ['the frozen reference skeletons in this module were confirmed by reading the pinned tree',
                'hash() is total and deterministic (not analysed)']
@@ -565,6 +565,36 @@ def check_single_removal(ctx, db):
               '; '.join(bad) or 'expected two removal sites, found %d' % len(incs))
 
 
+def check_update_xor_insert(ctx, db):
+    """set_gds_property either overwrites the value of an existing attribute or links a new entry - never both:
+    no CFG path leads from the in-place update to the statement that links the new list head."""
+    f = db.fn('gdstk::set_gds_property')
+    ctx.touch(f)
+    g = f.cfg
+    norm = lambda t: re.sub(r'<[A-Za-z]+:(?!:)[^>]*>', '', t).replace('gdstk::', '')
+    loop = next((l for l in f.body.c if l is not None and l.k == 'ForStmt'), None)
+    link = next((x for x in f.walk() if is_assign(x) and norm(x.child('lhs').text()) == 'properties'), None)
+    upd = [c for c in (loop.walk() if loop is not None else []) if c.k == 'CallExpr' and c.callee in ('memcpy', 'gdstk::reallocate')]
+    if loop is None or link is None or not upd:
+        raise AnalysisBroken('set_gds_property: search loop / in-place update / head link not found')
+    start = g.where_node(upd[-1])
+    goal = g.where_node(link)
+    if start is None or goal is None:
+        raise AnalysisBroken('set_gds_property: statements not located in the CFG')
+    path = g.path_avoiding(start, lambda b, i, nid: (b, i) == goal, lambda b, i, nid: False)
+    ctx.check(path is None, 'R-MUSTPASS', 'set_gds_property/update-xor-insert', upd[-1].loc(), 'after an existing attribute has been overwritten in place the function is left: the code that links a new entry is unreachable from there',
+              'after overwriting an existing attribute control still reaches `properties = property` (%s): the list gets a second entry for the same attribute' % (g.describe_path(path) if path else ''))
+    # get_or_add_property: the branch that re-uses an existing property returns before a new one is linked
+    h = db.fn('gdstk::get_or_add_property')
+    gh = h.cfg
+    link2 = next((x for x in h.walk() if is_assign(x) and norm(x.child('lhs').text()) == 'properties'), None)
+    reuse = next((x for x in h.walk() if is_assign(x) and norm(x.child('lhs').text()) == 'property->value'), None)
+    if link2 is None or reuse is None:
+        raise AnalysisBroken('get_or_add_property: shape not recognised')
+    path = gh.path_avoiding(gh.where_node(reuse), lambda b, i, nid: (b, i) == gh.where_node(link2), lambda b, i, nid: False)
+    ctx.check(path is None, 'R-MUSTPASS', 'get_or_add_property/reuse-xor-insert', reuse.loc(), 'adding a value to an existing property never also links a new property')
+
+
 def run(ctx):
     db = ctx.db
     nullable = flow.nullable_functions(db)
@@ -574,6 +604,7 @@ def run(ctx):
     check_array(ctx, db)
     check_heap(ctx, db)
     check_single_removal(ctx, db)
+    check_update_xor_insert(ctx, db)
     # positive control for the contradiction rule
     cdb = load_controls()
     for name, expect in (('ctl_list_head_removal', True), ('ctl_list_head_removal_ok', False)):
@@ -585,7 +616,7 @@ def run(ctx):
 
 
 MANIFEST = dict(
-   text='Decides structural necessary conditions of the container models on all paths: (1) check-then-use null contradictions in every property-list function (a pointer the function itself null-tests, re-assigned from a list tail and dereferenced untested); (2) the four open-addressing tables (Map<T>, Set<T>, TagMap, StyleMap; every member instantiated explicitly) have control skeletons equal to a frozen reference after abstracting the table-specific empty-slot predicate (probe wrap at items+capacity, load-factor test before get_slot, count++ only on an empty slot, del = empty + count-- + cluster re-insertion until the first empty slot, resize re-inserts every occupied item then clears, next bounded by items+capacity), payload obligations (old slot emptied, every item field written), count==0 guard before every look-up; (3) Array<T> bookkeeping; (4) property-list copies append at the tail and deep-copy, and remove_property leaves the function right after the first removal unless all occurrences were requested. (5) heap sort (introsort fallback): child/parent index formulas evaluated for small indices, every comparison of a child index with the inclusive bound `end` is `<=`, the build phase passes count-1, after the maximum is swapped to items[end] the sift range excludes that slot, and the elements saved by insertion_sort, sift_down and partition are copies, not references into the array being rearranged. Does not decide equivalence with an abstract map/multimap over operation histories, nor that sort orders every input (value-dependent; only the index discipline of the heap part is decided).',
+   text='Decides structural necessary conditions of the container models on all paths: (1) check-then-use null contradictions in every property-list function (a pointer the function itself null-tests, re-assigned from a list tail and dereferenced untested); (2) the four open-addressing tables (Map<T>, Set<T>, TagMap, StyleMap; every member instantiated explicitly) have control skeletons equal to a frozen reference after abstracting the table-specific empty-slot predicate (probe wrap at items+capacity, load-factor test before get_slot, count++ only on an empty slot, del = empty + count-- + cluster re-insertion until the first empty slot, resize re-inserts every occupied item then clears, next bounded by items+capacity), payload obligations (old slot emptied, every item field written), count==0 guard before every look-up; (3) Array<T> bookkeeping; (4) property-list copies append at the tail and deep-copy, remove_property leaves the function right after the first removal unless all occurrences were requested, and set_gds_property / get_or_add_property either update an existing entry or link a new one, never both (CFG reachability). (5) heap sort (introsort fallback): child/parent index formulas evaluated for small indices, every comparison of a child index with the inclusive bound `end` is `<=`, the build phase passes count-1, after the maximum is swapped to items[end] the sift range excludes that slot, and the elements saved by insertion_sort, sift_down and partition are copies, not references into the array being rearranged. Does not decide equivalence with an abstract map/multimap over operation histories, nor that sort orders every input (value-dependent; only the index discipline of the heap part is decided).',
    note='Trusted: clang 14 front end, gx, sa rules; the frozen reference skeletons in sa/props/C20.py were confirmed by reading the pinned tree (a consistent refactor of all tables is reported as differing from the reference, exit 1 naming the method, to be re-confirmed by a human); hash() not analysed.',
    technique='clone-family comparison with predicate abstraction over typed ASTs + nullness dataflow (check-then-use contradiction) over the clang CFG',
    design='§4 C20')
